@@ -512,3 +512,488 @@ Proof.
   destruct (nth_error l _) eqn:E; [|discriminate]. intros H; inversion H; subst.
   apply nth_error_In in E. rewrite forallb_forall in Hl. apply Hl; exact E.
 Qed.
+
+(* ------------------------------------------------------------------ *)
+(** * The simulation *)
+
+(** what the exporter relies on *)
+Record model_ok (M : model) : Prop := {
+  ok_ns_fo : forall s x v, m_ns M s x = Some v -> fo v = true;
+  ok_bi_fo : forall x v, m_builtins M x = Some v -> fo v = true;
+  ok_cells : forall s n ps b, m_cells M s n = Some (ps, b) ->
+             mem self_name ps = false /\ no_self b = true;
+  (* names of the namespace that shadow a built-in are known to the transformer *)
+  ok_top_complete : forall s x, m_ns M s x <> None -> In x (t_bi (m_cfg M s)) -> In x (t_top (m_cfg M s));
+  ok_top_sound : forall s x, In x (t_top (m_cfg M s)) -> m_ns M s x <> None;
+  ok_bi : forall s x, m_builtins M x <> None -> In x (t_bi (m_cfg M s));
+  ok_cellnames : forall s x, In x (t_cells (m_cfg M s)) -> exists s' n, m_ns M s x = Some (VCell s' n)
+}.
+
+Definition sim (M : model) (ro rt : res value) : Prop :=
+  forall v, ro = Ok v -> rt = Ok (tv M v) /\ vok v = true.
+
+Definition rec_rel (M : model) (ro rt : sid -> expr -> env -> res value) : Prop :=
+  forall s b en, env_ok en = true -> no_self b = true ->
+    sim M (ro s b en) (rt s (transform (m_cfg M s) (map fst en) b) (tenv M en ++ self_frame s)).
+
+Lemma subscript_sim : forall M v idx r,
+  vok v = true -> forallb vok idx = true ->
+  subscript (Wo M) v idx = Ok r ->
+  subscript (Wt M) (tv M v) (map (tv M) idx) = Ok (tv M r) /\ vok r = true.
+Proof.
+  intros M v idx r Hv Hi H.
+  destruct v; simpl in H; try discriminate.
+  - (* list *)
+    destruct idx as [|i [|j t]]; try discriminate. simpl.
+    rewrite as_int_tv. destruct (as_int i); [|discriminate].
+    rewrite index_tv, H; simpl. split; [reflexivity|]. apply (index_vok l z r); [exact Hv|exact H].
+  - (* space object *)
+    simpl. rewrite fo_list_tv_b. destruct (forallb fo idx) eqn:E; [|discriminate].
+    rewrite (fo_list_tv M idx E). simpl in *.
+    destruct (m_item M s idx); [|discriminate]. inversion H; subst; split; reflexivity.
+Qed.
+
+Lemma vok_clos_inv : forall s rn ps b cenv, vok (VClos s rn ps b cenv) = true ->
+  match rn with Some f => f <> self_name | None => True end /\
+  mem self_name ps = false /\ no_self b = true /\ env_ok cenv = true.
+Proof.
+  intros s rn ps b cenv H; simpl in H.
+  repeat (apply andb_true_iff in H; let H' := fresh "H" in destruct H as [H H']).
+  repeat split; try assumption.
+  - destruct rn; [|exact I]. apply negb_true_iff in H. apply String.eqb_neq; exact H.
+  - apply negb_true_iff; exact H2.
+Qed.
+
+Lemma apply_sim : forall M ro rt, model_ok M -> rec_rel M ro rt ->
+  forall f args kw r,
+  vok f = true -> forallb vok args = true -> forallb vok (map snd kw) = true ->
+  apply ro (Wo M) f args kw = Ok r ->
+  apply rt (Wt M) (tv M f) (map (tv M) args) (tkw M kw) = Ok (tv M r) /\ vok r = true.
+Proof.
+  intros M ro rt HM Hrec f args kw r Hf Ha Hk H.
+  destruct f; simpl in H; try discriminate.
+  - (* space object called: ItemSpace *)
+    destruct kw; [|discriminate]. simpl tkw. cbn [apply tv].
+    apply (subscript_sim M (VObj s) args r); assumption.
+  - (* cells *)
+    simpl. destruct (m_cells M s n) as [[ps b]|] eqn:Ec; [|discriminate]. simpl.
+    rewrite bind_args_tv. destruct (bind_args ps args kw) as [vs|] eqn:Eb; [|discriminate]. simpl.
+    destruct (ok_cells M HM _ _ _ _ Ec) as [Hps Hb].
+    assert (Hvs : forallb vok vs = true) by (exact (bind_args_vok ps args kw vs Ha Hk Eb)).
+    assert (Hen : env_ok (frame ps b vs ++ []) = true)
+      by (rewrite env_ok_app, env_ok_frame by assumption; reflexivity).
+    specialize (Hrec s b _ Hen Hb r H).
+    rewrite app_nil_r in Hrec. rewrite map_fst_frame in Hrec by (exact (bind_args_length ps args kw vs Eb)).
+    rewrite (tenv_frame M (m_cfg M s) (fscope ps b)) in Hrec.
+    exact Hrec.
+  - (* builtin *)
+    simpl. rewrite fo_list_tv_b, map_snd_tkw, fo_list_tv_b.
+    destruct (forallb fo args) eqn:E1; [|discriminate].
+    destruct (forallb fo (map snd kw)) eqn:E2; [|discriminate]. simpl in *.
+    rewrite (fo_list_tv M args E1), (tkw_fo M kw E2).
+    destruct (m_fn M n args kw) as [r0|]; [|discriminate].
+    destruct (fo r0) eqn:E3; [|discriminate]. inversion H; subst.
+    rewrite (fo_tv M r E3); split; [reflexivity|apply fo_vok; exact E3].
+  - (* closure *)
+    destruct (vok_clos_inv _ _ _ _ _ Hf) as [Hrn [Hps [Hb Hce]]].
+    cbn [tv apply]. rewrite bind_args_tv.
+    destruct (bind_args ps args kw) as [vs|] eqn:Eb; [|discriminate]. simpl option_map. cbv iota.
+    assert (Hvs : forallb vok vs = true) by (exact (bind_args_vok ps args kw vs Ha Hk Eb)).
+    set (f0 := VClos s rn ps body cenv) in *.
+    set (cenv' := match rn with Some g => upd cenv g f0 | None => cenv end) in *.
+    assert (Hce' : env_ok cenv' = true).
+    { unfold cenv'; destruct rn; [apply env_ok_upd; assumption|assumption]. }
+    assert (Hfst : map fst cenv' = map fst cenv).
+    { unfold cenv'; destruct rn; [apply map_fst_upd|reflexivity]. }
+    assert (Hen : env_ok (frame ps body vs ++ cenv') = true)
+      by (rewrite env_ok_app, env_ok_frame, Hce' by assumption; reflexivity).
+    specialize (Hrec s body _ Hen Hb r H).
+    rewrite map_app, map_fst_frame, Hfst in Hrec by (exact (bind_args_length ps args kw vs Eb)).
+    rewrite tenv_app, (tenv_frame M (m_cfg M s) (fscope ps body ++ map fst cenv)) in Hrec.
+    rewrite <- app_assoc in Hrec.
+    assert (Hupd : match rn with
+                   | Some g => upd (tenv M cenv ++ self_frame s) g (tv M f0)
+                   | None => tenv M cenv ++ self_frame s
+                   end = tenv M cenv' ++ self_frame s).
+    { unfold cenv'; destruct rn; [apply upd_tenv_self; exact Hrn|reflexivity]. }
+    unfold f0 in Hupd at 1. cbn [tv] in Hupd. unfold tenv at 1 2 in Hupd.
+    rewrite Hupd. exact Hrec.
+Qed.
+
+Lemma evlist_sim : forall M (f g : expr -> res value) (T : expr -> expr) es,
+  Forall (fun e => sim M (f e) (g (T e))) es ->
+  forall vs, evlist f es = Ok vs ->
+  evlist g (map T es) = Ok (map (tv M) vs) /\ forallb vok vs = true.
+Proof.
+  intros M f g T es HF; induction HF as [|e es He Hes IH]; simpl; intros vs H.
+  - inversion H; subst; split; reflexivity.
+  - destruct (f e) as [v| |] eqn:E; simpl in H; try discriminate.
+    destruct (He v eq_refl) as [H1 H2]. rewrite H1; simpl.
+    destruct (evlist f es) as [vs'| |] eqn:E2; simpl in H; try discriminate.
+    destruct (IH vs' eq_refl) as [H3 H4]. rewrite H3; simpl.
+    inversion H; subst; simpl. rewrite H2, H4; split; reflexivity.
+Qed.
+
+Lemma evconds_sim : forall M (f g : expr -> res value) (T : expr -> expr) cs,
+  Forall (fun e => sim M (f e) (g (T e))) cs ->
+  forall b, evconds f cs = Ok b -> evconds g (map T cs) = Ok b.
+Proof.
+  intros M f g T cs HF; induction HF as [|e es He Hes IH]; simpl; intros b H.
+  - exact H.
+  - destruct (f e) as [v| |] eqn:E; simpl in H; try discriminate.
+    destruct (He v eq_refl) as [H1 H2]. rewrite H1; simpl. rewrite truthy_tv.
+    destruct (truthy v); [apply IH; exact H|exact H].
+Qed.
+
+Lemma comp_loop_sim : forall M (bo bt : value -> res (option value)),
+  (forall v o, vok v = true -> bo v = Ok o ->
+     bt (tv M v) = Ok (option_map (tv M) o) /\ match o with Some r => vok r | None => true end = true) ->
+  forall vs rs, forallb vok vs = true -> comp_loop bo vs = Ok rs ->
+  comp_loop bt (map (tv M) vs) = Ok (map (tv M) rs) /\ forallb vok rs = true.
+Proof.
+  intros M bo bt Hb vs; induction vs as [|v vs IH]; simpl; intros rs Hv H.
+  - inversion H; subst; split; reflexivity.
+  - apply andb_true_iff in Hv; destruct Hv as [Hv1 Hv2].
+    destruct (bo v) as [o| |] eqn:E; simpl in H; try discriminate.
+    destruct (Hb v o Hv1 E) as [H1 H2]. rewrite H1; simpl.
+    destruct (comp_loop bo vs) as [rs'| |] eqn:E2; simpl in H; try discriminate.
+    destruct (IH rs' Hv2 eq_refl) as [H3 H4]. rewrite H3; simpl.
+    inversion H; subst. destruct o; simpl; [rewrite H2, H4|rewrite H4]; split; reflexivity.
+Qed.
+
+Lemma lookup_mem : forall en x, mem x (map fst en) = match lookup en x with Some _ => true | None => false end.
+Proof.
+  intros en x. destruct (lookup en x) eqn:E.
+  - apply mem_In. destruct (in_dec string_dec x (map fst en)) as [Hi|Hn]; [exact Hi|].
+    apply lookup_None in Hn; congruence.
+  - apply mem_false. apply lookup_None; exact E.
+Qed.
+
+Lemma lookup_self : forall M s en, env_ok en = true ->
+  lookup (tenv M en ++ self_frame s) self_name = Some (Some (VObj s)).
+Proof.
+  intros M s en H. rewrite lookup_app, lookup_tenv, (env_ok_noself en H). simpl.
+  rewrite String.eqb_refl; reflexivity.
+Qed.
+
+Lemma lookup_tenv_self : forall M s en x, x <> self_name ->
+  lookup (tenv M en ++ self_frame s) x = option_map (option_map (tv M)) (lookup en x).
+Proof.
+  intros M s en x Hx. rewrite lookup_app, lookup_tenv.
+  destruct (lookup en x); simpl; [reflexivity|].
+  destruct (String.eqb self_name x) eqn:E; [apply String.eqb_eq in E; congruence|reflexivity].
+Qed.
+
+Lemma name_sim : forall M ro rt, model_ok M ->
+  forall x s en, env_ok en = true -> no_self (EName x) = true ->
+  sim M (ev ro (Wo M) s (EName x) en)
+        (ev rt (Wt M) s (transform (m_cfg M s) (map fst en) (EName x)) (tenv M en ++ self_frame s)).
+Proof.
+  intros M ro rt HM x s en Hen Hns v H.
+  simpl in Hns. apply negb_true_iff in Hns. apply String.eqb_neq in Hns.
+  simpl in H. cbn [transform]. unfold replace, classify_global. rewrite lookup_mem.
+  destruct (lookup en x) as [[v0|]|] eqn:El; try discriminate.
+  - inversion H; subst. simpl. rewrite lookup_tenv_self, El by exact Hns. simpl.
+    split; [reflexivity|eapply env_ok_lookup; eauto].
+  - cbn [negb andb].
+    destruct (m_ns M s x) as [v1|] eqn:En.
+    + (* a name of the namespace *)
+      inversion H; subst.
+      assert (Hrep : mem x (t_top (m_cfg M s)) || negb (mem x (t_bi (m_cfg M s))) = true).
+      { destruct (mem x (t_bi (m_cfg M s))) eqn:Eb; [|apply orb_true_r].
+        apply mem_In in Eb. rewrite orb_false_r. apply mem_In.
+        apply (ok_top_complete M HM); [congruence|exact Eb]. }
+      rewrite Hrep. unfold self_attr. cbn [ev]. rewrite (lookup_self M s en Hen). simpl.
+      rewrite En. rewrite (fo_tv M v (ok_ns_fo M HM _ _ _ En)).
+      split; [reflexivity|apply fo_vok; eapply ok_ns_fo; eauto].
+    + (* a built-in *)
+      destruct (m_builtins M x) as [v1|] eqn:Eb; [|discriminate]. inversion H; subst.
+      assert (Hrep : mem x (t_top (m_cfg M s)) || negb (mem x (t_bi (m_cfg M s))) = false).
+      { apply orb_false_iff; split.
+        - apply mem_false. intros Hi. apply (ok_top_sound M HM) in Hi. congruence.
+        - apply negb_false_iff. apply mem_In. apply (ok_bi M HM). congruence. }
+      rewrite Hrep. cbn [ev]. rewrite lookup_tenv_self, El by exact Hns. simpl. rewrite Eb.
+      rewrite (fo_tv M v (ok_bi_fo M HM _ _ Eb)).
+      split; [reflexivity|apply fo_vok; eapply ok_bi_fo; eauto].
+Qed.
+
+Definition ev_rel (M : model) (ro rt : sid -> expr -> env -> res value) (e : expr) : Prop :=
+  forall s en, env_ok en = true -> no_self e = true ->
+    sim M (ev ro (Wo M) s e en)
+          (ev rt (Wt M) s (transform (m_cfg M s) (map fst en) e) (tenv M en ++ self_frame s)).
+
+Lemma Forall_ev_rel : forall M ro rt s en l,
+  Forall (ev_rel M ro rt) l -> env_ok en = true -> forallb no_self l = true ->
+  Forall (fun e => sim M ((fun a => ev ro (Wo M) s a en) e)
+                         ((fun a => ev rt (Wt M) s a (tenv M en ++ self_frame s))
+                            (transform (m_cfg M s) (map fst en) e))) l.
+Proof.
+  intros M ro rt s en l HF Hen Hn; induction HF as [|e l He Hl IH]; [constructor|].
+  simpl in Hn; apply andb_true_iff in Hn; destruct Hn as [H1 H2].
+  constructor; [apply He; assumption|apply IH; exact H2].
+Qed.
+
+Lemma sub_generic : forall M ro rt e idx,
+  ev_rel M ro rt e -> Forall (ev_rel M ro rt) idx ->
+  forall s en, env_ok en = true -> no_self e = true -> forallb no_self idx = true ->
+  sim M (ev ro (Wo M) s (ESub e idx) en)
+        (ev rt (Wt M) s (ESub (transform (m_cfg M s) (map fst en) e)
+                              (map (transform (m_cfg M s) (map fst en)) idx))
+            (tenv M en ++ self_frame s)).
+Proof.
+  intros M ro rt e idx He Hidx s en Hen Hne Hni v H.
+  cbn [ev] in *.
+  destruct (ev ro (Wo M) s e en) as [v0| |] eqn:E0; simpl in H; try discriminate.
+  destruct (He s en Hen Hne v0 E0) as [H1 H2]. rewrite H1; simpl.
+  destruct (evlist (fun a => ev ro (Wo M) s a en) idx) as [vi| |] eqn:E1; simpl in H; try discriminate.
+  destruct (evlist_sim M _ _ _ idx (Forall_ev_rel M ro rt s en idx Hidx Hen Hni) vi E1) as [H3 H4].
+  rewrite H3; simpl. apply subscript_sim; assumption.
+Qed.
+
+Theorem ev_sim : forall M ro rt, model_ok M -> rec_rel M ro rt -> forall e, ev_rel M ro rt e.
+Proof.
+  intros M ro rt HM Hrec e;
+  induction e as [ z | | x | e a IHe | op a b IHa IHb | c a b IHc IHa IHb
+                 | f args kws kwv IHf Hargs Hkwv | e idx IHe Hidx | ps b IHb | es Hes
+                 | k elt x iter conds IHelt IHiter Hconds | x e1 rest IH1 IH2
+                 | f ps fb rest IHfb IHrest ] using expr_ind2;
+  intros s en Hen Hns v H.
+  - (* EInt *) inversion H; subst; split; reflexivity.
+  - (* ENone *) inversion H; subst; split; reflexivity.
+  - (* EName *) eapply name_sim; eauto.
+  - (* EAttr *)
+    cbn [ev transform no_self] in *.
+    destruct (ev ro (Wo M) s e en) as [v0| |] eqn:E0; simpl in H; try discriminate.
+    destruct (IHe s en Hen Hns v0 E0) as [H1 H2]. rewrite H1; simpl.
+    destruct v0; simpl in H; try discriminate. simpl.
+    destruct (m_ns M s0 a) eqn:En; [|discriminate]. inversion H; subst.
+    rewrite (fo_tv M v (ok_ns_fo M HM _ _ _ En)).
+    split; [reflexivity|apply fo_vok; eapply ok_ns_fo; eauto].
+  - (* EBin *)
+    cbn [ev transform no_self] in *. apply andb_true_iff in Hns; destruct Hns as [Hn1 Hn2].
+    destruct (ev ro (Wo M) s a en) as [va| |] eqn:E1; simpl in H; try discriminate.
+    destruct (IHa s en Hen Hn1 va E1) as [H1 H2]. rewrite H1; simpl.
+    destruct (ev ro (Wo M) s b en) as [vb| |] eqn:E2; simpl in H; try discriminate.
+    destruct (IHb s en Hen Hn2 vb E2) as [H3 H4]. rewrite H3; simpl.
+    rewrite binop_tv, H; simpl. split; [reflexivity|exact (binop_vok op va vb v H2 H4 H)].
+  - (* EIf *)
+    cbn [ev transform no_self] in *.
+    apply andb_true_iff in Hns; destruct Hns as [Hns Hn3].
+    apply andb_true_iff in Hns; destruct Hns as [Hn1 Hn2].
+    destruct (ev ro (Wo M) s c en) as [vc| |] eqn:E1; simpl in H; try discriminate.
+    destruct (IHc s en Hen Hn1 vc E1) as [H1 H2]. rewrite H1; simpl. rewrite truthy_tv.
+    destruct (truthy vc); [apply IHa|apply IHb]; assumption.
+  - (* ECall *)
+    cbn [ev transform no_self] in *.
+    apply andb_true_iff in Hns; destruct Hns as [Hns Hn3].
+    apply andb_true_iff in Hns; destruct Hns as [Hn1 Hn2].
+    destruct (ev ro (Wo M) s f en) as [vf| |] eqn:E0; simpl in H; try discriminate.
+    destruct (IHf s en Hen Hn1 vf E0) as [H1 H2]. rewrite H1; simpl.
+    destruct (evlist (fun a => ev ro (Wo M) s a en) args) as [vas| |] eqn:E1; simpl in H; try discriminate.
+    destruct (evlist_sim M _ _ _ args (Forall_ev_rel M ro rt s en args Hargs Hen Hn2) vas E1) as [H3 H4].
+    rewrite H3; simpl.
+    destruct (evlist (fun a => ev ro (Wo M) s a en) kwv) as [vks| |] eqn:E2; simpl in H; try discriminate.
+    destruct (evlist_sim M _ _ _ kwv (Forall_ev_rel M ro rt s en kwv Hkwv Hen Hn3) vks E2) as [H5 H6].
+    rewrite H5; simpl. rewrite map_length.
+    destruct (Nat.eqb (List.length kws) (List.length vks)); [|discriminate].
+    rewrite combine_tkw. eapply apply_sim; eauto. apply snd_combine_vok; exact H6.
+  - (* ESub *)
+    cbn [no_self] in Hns. apply andb_true_iff in Hns; destruct Hns as [Hn1 Hn2].
+    destruct (name_or_not e) as [[x ->]|Hnn].
+    + cbn [transform].
+      destruct (replace (m_cfg M s) (map fst en) x && mem x (t_cells (m_cfg M s))) eqn:Er.
+      * (* rewritten to a call: the original subscribes a cells (a bound method) and fails *)
+        exfalso. apply andb_true_iff in Er; destruct Er as [Er1 Er2].
+        unfold replace, classify_global in Er1. apply andb_true_iff in Er1; destruct Er1 as [Er1 _].
+        rewrite lookup_mem in Er1.
+        apply mem_In in Er2. destruct (ok_cellnames M HM s x Er2) as [s' [n En]].
+        cbn [ev] in H. destruct (lookup en x); [discriminate|]. simpl in H. rewrite En in H. simpl in H.
+        destruct (evlist (fun a => ev ro (Wo M) s a en) idx); simpl in H; discriminate.
+      * apply (sub_generic M ro rt (EName x) idx IHe Hidx s en Hen Hn1 Hn2 v H).
+    + rewrite transform_sub_notname by exact Hnn.
+      apply (sub_generic M ro rt e idx IHe Hidx s en Hen Hn1 Hn2 v H).
+  - (* ELam *)
+    cbn [ev transform] in *. inversion H; subst. split; [reflexivity|].
+    cbn [no_self] in Hns. apply andb_true_iff in Hns; destruct Hns as [Hn1 Hn2].
+    cbn [vok]. rewrite Hn1, Hn2. exact Hen.
+  - (* EList *)
+    cbn [ev transform no_self] in *.
+    destruct (evlist (fun a => ev ro (Wo M) s a en) es) as [vs| |] eqn:E1; simpl in H; try discriminate.
+    destruct (evlist_sim M _ _ _ es (Forall_ev_rel M ro rt s en es Hes Hen Hns) vs E1) as [H3 H4].
+    rewrite H3; simpl. inversion H; subst. split; [reflexivity|exact H4].
+  - (* EComp *)
+    cbn [ev transform no_self] in *.
+    apply andb_true_iff in Hns; destruct Hns as [Hns Hn4].
+    apply andb_true_iff in Hns; destruct Hns as [Hns Hn3].
+    apply andb_true_iff in Hns; destruct Hns as [Hn1 Hn2].
+    apply negb_true_iff in Hn1.
+    destruct (ev ro (Wo M) s iter en) as [vi| |] eqn:E0; simpl in H; try discriminate.
+    destruct (IHiter s en Hen Hn3 vi E0) as [H1 H2]. rewrite H1; simpl.
+    destruct vi; simpl in H; try discriminate. cbn [tv].
+    match type of H with rbind (comp_loop ?bo l) _ = _ => set (body_o := bo) in * end.
+    destruct (comp_loop body_o l) as [rs| |] eqn:E1; simpl in H; try discriminate.
+    inversion H; subst. clear H.
+    match goal with |- rbind (comp_loop ?bt _) _ = _ /\ _ => set (body_t := bt) end.
+    assert (Hb : forall v o, vok v = true -> body_o v = Ok o ->
+                 body_t (tv M v) = Ok (option_map (tv M) o) /\
+                 match o with Some r => vok r | None => true end = true).
+    { intros v o Hv Ho. unfold body_o in Ho. unfold body_t.
+      rewrite assigned_transform, flat_assigned_transform.
+      set (L := assigned elt ++ flat_map assigned conds) in *.
+      set (en' := (x, Some v) :: undecl L ++ en) in *.
+      assert (Hen' : env_ok en' = true).
+      { change en' with (((x, Some v) :: undecl L) ++ en).
+        rewrite env_ok_app, Hen, andb_true_r. simpl. rewrite Hn1, Hv; simpl.
+        apply env_ok_undecl. unfold L, mem. rewrite existsb_app. apply orb_false_iff; split.
+        - apply no_self_assigned; exact Hn2.
+        - clear - Hn4. induction conds as [|c cs IH]; simpl in *; [reflexivity|].
+          apply andb_true_iff in Hn4; destruct Hn4 as [Ha Hb].
+          rewrite existsb_app. apply orb_false_iff; split;
+            [apply no_self_assigned; exact Ha|apply IH; exact Hb]. }
+      assert (Hfst : map fst en' = x :: L ++ map fst en).
+      { unfold en'. simpl. rewrite map_app, map_fst_undecl. reflexivity. }
+      assert (Hte : (x, Some (tv M v)) :: undecl L ++ tenv M en ++ self_frame s
+                    = tenv M en' ++ self_frame s).
+      { change en' with (((x, Some v) :: undecl L) ++ en).
+        rewrite tenv_app. simpl. rewrite tenv_undecl, <- app_assoc. reflexivity. }
+      rewrite Hte, <- Hfst. clearbody en'.
+      destruct (evconds (fun c => ev ro (Wo M) s c en') conds) as [ok| |] eqn:Ec; simpl in Ho; try discriminate.
+      rewrite (evconds_sim M _ _ _ conds (Forall_ev_rel M ro rt s en' conds Hconds Hen' Hn4) ok Ec). simpl.
+      destruct ok.
+      - destruct (ev ro (Wo M) s elt en') as [r| |] eqn:Ee; simpl in Ho; try discriminate.
+        destruct (IHelt s en' Hen' Hn2 r Ee) as [H3 H4]. rewrite H3; simpl.
+        inversion Ho; subst; simpl. split; [reflexivity|exact H4].
+      - inversion Ho; subst; simpl. split; reflexivity. }
+    destruct (comp_loop_sim M body_o body_t Hb l rs H2 E1) as [H3 H4].
+    rewrite H3; simpl. split; [reflexivity|exact H4].
+  - (* ELet *)
+    cbn [ev transform no_self] in *.
+    apply andb_true_iff in Hns; destruct Hns as [Hns Hn3].
+    apply andb_true_iff in Hns; destruct Hns as [Hn1 Hn2].
+    apply negb_true_iff in Hn1. apply String.eqb_neq in Hn1.
+    destruct (ev ro (Wo M) s e1 en) as [v1| |] eqn:E1; simpl in H; try discriminate.
+    destruct (IH1 s en Hen Hn2 v1 E1) as [H1 H2]. rewrite H1; simpl.
+    rewrite upd_tenv_self by exact Hn1.
+    rewrite <- (map_fst_upd en x v1).
+    apply IH2; [apply env_ok_upd; assumption|exact Hn3|exact H].
+  - (* EDef *)
+    cbn [ev transform no_self] in *.
+    apply andb_true_iff in Hns; destruct Hns as [Hns Hn4].
+    apply andb_true_iff in Hns; destruct Hns as [Hns Hn3].
+    apply andb_true_iff in Hns; destruct Hns as [Hn1 Hn2].
+    assert (Hf : f <> self_name) by (apply negb_true_iff in Hn1; apply String.eqb_neq; exact Hn1).
+    set (clo := VClos s (Some f) ps fb en) in *.
+    assert (Hclo : vok clo = true).
+    { unfold clo. cbn [vok]. rewrite Hn1, Hn2, Hn3. exact Hen. }
+    change (VClos s (Some f) ps (transform (m_cfg M s) (fscope ps fb ++ map fst en) fb)
+                  (tenv M en ++ self_frame s)) with (tv M clo).
+    rewrite upd_tenv_self by exact Hf.
+    rewrite <- (map_fst_upd en f clo).
+    apply IHrest; [apply env_ok_upd; assumption|exact Hn4|exact H].
+Qed.
+
+Lemma eval_unfold : forall n W s e en,
+  eval n W s e en = ev (match n with O => fun _ _ _ => OutOfFuel | S n' => eval n' W end) W s e en.
+Proof. intros n; destruct n; reflexivity. Qed.
+
+(** every formula, every environment, every fuel *)
+Theorem eval_sim : forall M, model_ok M -> forall n, rec_rel M (eval n (Wo M)) (eval n (Wt M)).
+Proof.
+  intros M HM n; induction n as [|n IH]; intros s b en Hen Hb; rewrite !eval_unfold.
+  - apply ev_sim; try assumption. intros s' b' en' _ _ v H; discriminate.
+  - apply ev_sim; assumption.
+Qed.
+
+Theorem transform_sound : forall M, model_ok M -> forall n s e en v,
+  env_ok en = true -> no_self e = true ->
+  eval n (Wo M) s e en = Ok v ->
+  eval n (Wt M) s (transform (m_cfg M s) (map fst en) e) (tenv M en ++ self_frame s) = Ok (tv M v).
+Proof.
+  intros M HM n s e en v Hen He H. destruct (eval_sim M HM n s e en Hen He v H) as [H1 _]; exact H1.
+Qed.
+
+(** calling a cells of the exported package from outside with closure-free
+    arguments gives the value the model gives *)
+Theorem call_cells_sound : forall M, model_ok M -> forall n s nm args v,
+  forallb fo args = true ->
+  call_cells n (Wo M) s nm args = Ok v ->
+  call_cells n (Wt M) s nm args = Ok (tv M v).
+Proof.
+  intros M HM n s nm args v Ha H. unfold call_cells in *.
+  assert (Hrec : rec_rel M (match n with O => fun _ _ _ => OutOfFuel | S n' => eval n' (Wo M) end)
+                           (match n with O => fun _ _ _ => OutOfFuel | S n' => eval n' (Wt M) end)).
+  { destruct n; [intros s' b' en' _ _ v' H'; discriminate|apply eval_sim; exact HM]. }
+  destruct (apply_sim M _ _ HM Hrec (VCell s nm) args [] v eq_refl (fo_list_vok _ Ha) eq_refl H) as [H1 _].
+  rewrite (fo_list_tv M args Ha) in H1. exact H1.
+Qed.
+
+Corollary call_cells_same_value : forall M, model_ok M -> forall n s nm args v,
+  forallb fo args = true -> fo v = true ->
+  call_cells n (Wo M) s nm args = Ok v ->
+  call_cells n (Wt M) s nm args = Ok v.
+Proof.
+  intros M HM n s nm args v Ha Hv H.
+  pose proof (call_cells_sound M HM n s nm args v Ha H) as H1.
+  rewrite (fo_tv M v Hv) in H1. exact H1.
+Qed.
+
+(* ------------------------------------------------------------------ *)
+(** * Memo tables *)
+
+Lemma leqb_Z_eq : forall a b : list Z, leqb Z.eqb a b = true <-> a = b.
+Proof.
+  induction a as [|x a IH]; destruct b as [|y b]; simpl; split; intros H; try reflexivity; try discriminate.
+  - apply andb_true_iff in H; destruct H as [H1 H2]. apply Z.eqb_eq in H1. apply IH in H2. subst; reflexivity.
+  - inversion H; subst. rewrite Z.eqb_refl. apply andb_true_iff; split; [reflexivity|apply IH; reflexivity].
+Qed.
+
+Definition memo_inv {V} (f : key -> V) (t : memo V) : Prop :=
+  forall k v, mfind t k = Some v -> v = f k.
+
+Lemma mfind_filter {V} : forall (t : memo V) k k' v,
+  mfind (filter (fun p => negb (key_eqb (fst p) k)) t) k' = Some v -> mfind t k' = Some v.
+Proof.
+  intros t k k' v; induction t as [|[k0 v0] t IH]; simpl; intros H; [exact H|].
+  destruct (key_eqb k0 k) eqn:E; simpl in H.
+  - destruct (key_eqb k0 k') eqn:E2; [|apply IH; exact H].
+    (* the removed key is asked again: it cannot be found in the filtered rest *)
+    exfalso. apply leqb_Z_eq in E. apply leqb_Z_eq in E2. subst.
+    clear IH. induction t as [|[k1 v1] t IH]; simpl in H; [discriminate|].
+    destruct (key_eqb k1 k') eqn:E3; simpl in H; [apply IH; exact H|].
+    rewrite E3 in H. apply IH; exact H.
+  - destruct (key_eqb k0 k'); [exact H|apply IH; exact H].
+Qed.
+
+Lemma mstep_inv {V} : forall (f : key -> V) t o,
+  memo_inv f t ->
+  memo_inv f (fst (mstep f t o)) /\
+  snd (mstep f t o) = match o with MCall k => Some (f k) | _ => None end.
+Proof.
+  intros f t o Hi; destruct o as [k| |k]; simpl.
+  - destruct (mfind t k) as [v|] eqn:E; simpl.
+    + split; [exact Hi|rewrite (Hi k v E); reflexivity].
+    + split; [|reflexivity]. intros k' v' H; simpl in H.
+      destruct (key_eqb k k') eqn:E2; [|apply Hi; exact H].
+      apply leqb_Z_eq in E2; subst. inversion H; reflexivity.
+  - split; [intros k v H; discriminate|reflexivity].
+  - split; [|reflexivity]. intros k' v' H. apply Hi. eapply mfind_filter; exact H.
+Qed.
+
+(** any sequence of calls, clears and deletions: the memoised method answers
+    what the uncached body answers *)
+Theorem memo_sound {V} : forall (f : key -> V) ops t,
+  memo_inv f t ->
+  snd (mrun f t ops) = mspec f ops /\ memo_inv f (fst (mrun f t ops)).
+Proof.
+  intros f ops; induction ops as [|o ops IH]; intros t Hi; simpl.
+  - split; [reflexivity|exact Hi].
+  - destruct (mstep_inv f t o Hi) as [H1 H2].
+    destruct (mstep f t o) as [t1 x] eqn:E. simpl in H1, H2.
+    destruct (IH t1 H1) as [H3 H4].
+    destruct (mrun f t1 ops) as [t2 xs] eqn:E2. simpl in *.
+    split; [rewrite H2, H3; reflexivity|exact H4].
+Qed.
+
+Corollary memo_sound_fresh {V} : forall (f : key -> V) ops,
+  snd (mrun f [] ops) = mspec f ops.
+Proof. intros f ops. apply memo_sound. intros k v H; discriminate. Qed.
